@@ -201,10 +201,15 @@ def scenario(ctx, i, rng):
         src += 1
     # ---- method and its own source ----
     method = rng.choice(["parse_args"] * 5 + ["parse_env", "parse_string", "parse_object", "parse_path"])
-    if method == "parse_env" and env_mode == "off":
+    if method == "parse_env" and env_mode in ("off", "JSONARGPARSE_DEFAULT_ENV"):
         method = "parse_args"
     argv = []
     payload = None
+    explicit_env = method == "parse_env" and rng.random() < 0.5
+    if method == "parse_env" and explicit_env and rng.random() < 0.3:
+        # explicitly given but empty environment
+        env = {}
+        sources[:] = [s for s in sources if s[0] not in ("env_config", "env_var")]
     if method == "parse_args":
         for _ in range(rng.choice([0, 1, 2, 3, 4, 6])):
             r = rng.random()
@@ -255,7 +260,15 @@ def scenario(ctx, i, rng):
             if method == "parse_args":
                 o = call(p.parse_args, argv, **kw)
             elif method == "parse_env":
-                o = call(p.parse_env)
+                if explicit_env:
+                    # the environment to use is the mapping given; the process environment holds decoys
+                    decoy = {k: ("999" if k != "APP_CFG" else '{"a": 998}') for k in ("APP_A", "APP_G__N", "APP_CFG") if k not in env}
+                    with environ(decoy):
+                        for k in env:
+                            os.environ.pop(k, None)
+                        o = call(p.parse_env, dict(env))
+                else:
+                    o = call(p.parse_env)
             elif method == "parse_string":
                 o = call(p.parse_string, payload, **kw)
             elif method == "parse_object":
